@@ -2,6 +2,7 @@ SPECIFICATION TSpec
 CONSTANTS
   Machine = "all"
   CrashPoints = FALSE
+  RollFaults = TRUE
   MaxCount = 3
   Limit = 4
   MaxWrite = 6
